@@ -40,8 +40,9 @@ ASSUMPTIONS = [
     "BinaryMappingVariables computes ceil(log(N,2)) in floating point; the model computes it exactly; they agree for "
     "N < 2^29 (not reachable: the formula would have > 2^57 clauses)",
 ]
-NOTES = ["Ramsey witness: the argument s is overwritten by the mapping variable group; cases with k != s carry the "
-         "class 'ramseywitness:k!=s' (known finding D25)",
+NOTES = ["Ramsey witness: the documented statement (k-clique or s-independent set) is demanded for ALL k, s; the old "
+         "behaviour (argument s overwritten by the mapping group: 'k-clique or k-independent set', D25, fixed) is a "
+         "VIOLATION; the corpus keeps its two witnesses; classes '<cls>:<sym>:k<s|k=s|k>s'",
          "GraphIsomorphism(..., nontrivial=True): cases carry the class 'iso:nontrivial-flag'; documented witnesses = "
          "isomorphisms other than the identical mapping (D36, fixed in /repo 9050d5b: the flag used to be ignored)"]
 
@@ -459,7 +460,9 @@ def build(suite, info):
         def check(F):
             if F is None:
                 return None if rejected else {"family_raised_on_legal_input": True}
-            r = basic_checks(F, 1 + k * N)
+            # the number of variables of this family is not documented (the exact value 1 + max(k, s)·N is
+            # compared by the correspondence); the oracle demands literals in range and the documented statement
+            r = basic_checks(F, F.number_of_variables())
             if r or F.number_of_variables() > MAXVARS:
                 return r
             table = truth_table(F)
@@ -474,8 +477,8 @@ def build(suite, info):
                 return res
             return None
         r = req("g2_ramseywit", int(opb), k, s, symbreak, enc_g(g))
-        cls = "ramseywitness:k!=s" if (k != s and not rejected) else "{}:{}:{}".format(
-            cls_tag, "symbreak" if symbreak else "nosym", "rejected" if rejected else "k=s")
+        cls = "{}:{}:{}".format(cls_tag, "symbreak" if symbreak else "nosym",
+                                "rejected" if rejected else ("k=s" if k == s else ("k<s" if k < s else "k>s")))
         return Case(suite, r, impl, with_formula(check), cls=cls, nontrivial=(not rejected) and N > 0, info=info)
     raise ValueError("unknown suite " + suite)
 
@@ -508,11 +511,11 @@ def cases(ctx):
     rng = common.sub_rng(seed, "C02_graphs2")
     infos = []
     P2 = gr(2, [])
-    # --- corpus (always first): D25 replays, boundary graphs
+    # --- corpus (always first): D25 replays (regression: the defect is fixed), boundary graphs
     for opb in (False, True):
         for sb in (True, False):
-            infos.append(("g2_ramseywit", dict(g=P2, k=2, s=3, symbreak=sb, opb=opb)))        # sat, documented unsat
-            infos.append(("g2_ramseywit", dict(g=gr(1, []), k=2, s=1, symbreak=sb, opb=opb)))  # unsat, documented sat
+            infos.append(("g2_ramseywit", dict(g=P2, k=2, s=3, symbreak=sb, opb=opb)))        # was sat, documented unsat
+            infos.append(("g2_ramseywit", dict(g=gr(1, []), k=2, s=1, symbreak=sb, opb=opb)))  # was unsat, documented sat
             infos.append(("g2_ramseywit", dict(g=gr(0, []), k=1, s=0, symbreak=sb, opb=opb)))
             infos.append(("g2_ramseywit", dict(g=gr(4, [(1, 2), (2, 3), (3, 4)]), k=2, s=3, symbreak=sb, opb=opb)))
         infos.append(("g2_iso", dict(g1=gr(1, []), g2=gr(1, []), nontrivial=True, opb=opb)))   # D36 regression (fixed)
@@ -639,7 +642,8 @@ def _search_neighbourhood(case):
     elif case.suite in ("g2_clique", "g2_binclique"):
         trials = [dict(base, g=a, k=k) for a in smalls + list(all_graphs(4)) for k in range(0, a["n"] + 2)]
     elif case.suite == "g2_ramseywit":
-        trials = [dict(base, g=a, k=k, s=k) for a in smalls + list(all_graphs(4)) for k in range(0, a["n"] + 2)]
+        trials = [dict(base, g=a, k=k, s=s) for a in smalls for k in range(0, a["n"] + 2) for s in range(0, a["n"] + 2)] + \
+                 [dict(base, g=a, k=k, s=k) for a in all_graphs(4) for k in range(0, 6)]
     for info in trials:
         c = build(case.suite, info)
         common.run_impl(c)
